@@ -8,7 +8,6 @@ import (
 	"os"
 	"os/exec"
 	"regexp"
-	"strings"
 	"sync"
 	"syscall"
 	"time"
@@ -92,6 +91,8 @@ type Proc struct {
 	cond   *sync.Cond
 	chunks []Chunk
 	raw    []byte
+	clean  []byte // raw with escape sequences removed, maintained incrementally
+	carry  []byte // trailing bytes that may be the start of an escape sequence
 	done   chan struct{}
 	State  *os.ProcessState
 	Err    error
@@ -99,6 +100,8 @@ type Proc struct {
 }
 
 var ansi = regexp.MustCompile(`\x1b\[[0-9;?]*[A-Za-z]|\x1b[()][A-Za-z0-9]|\r`)
+
+var partialEsc = regexp.MustCompile(`\x1b(\[[0-9;?]*)?$`)
 
 // Clean strips escape sequences and carriage returns.
 func Clean(b []byte) string { return string(ansi.ReplaceAll(b, nil)) }
@@ -158,6 +161,13 @@ func Start(bin string, args, env []string, tty bool, init *syscall.Termios) (*Pr
 				p.mu.Lock()
 				p.chunks = append(p.chunks, Chunk{time.Now(), append([]byte(nil), buf[:n]...)})
 				p.raw = append(p.raw, buf[:n]...)
+				piece := append(p.carry, buf[:n]...)
+				p.carry = nil
+				if m := partialEsc.FindIndex(piece); m != nil {
+					p.carry = append([]byte(nil), piece[m[0]:]...)
+					piece = piece[:m[0]]
+				}
+				p.clean = append(p.clean, ansi.ReplaceAll(piece, nil)...)
 				p.cond.Broadcast()
 				p.mu.Unlock()
 			}
@@ -171,7 +181,20 @@ func Start(bin string, args, env []string, tty bool, init *syscall.Termios) (*Pr
 		p.State = cmd.ProcessState
 		// give the reader a moment to drain what the process wrote last
 		if tty {
-			time.Sleep(30 * time.Millisecond)
+			// the harness keeps the slave open (to read termios), so the master
+			// never reports EOF: wait until output has been quiet for a while
+			last, quiet := -1, 0
+			for i := 0; i < 200 && quiet < 3; i++ {
+				time.Sleep(15 * time.Millisecond)
+				p.mu.Lock()
+				n := len(p.raw)
+				p.mu.Unlock()
+				if n == last {
+					quiet++
+				} else {
+					last, quiet = n, 0
+				}
+			}
 		} else {
 			<-readDone
 		}
@@ -190,7 +213,7 @@ func (p *Proc) Type(s string) error {
 }
 
 // Output returns the cleaned output so far.
-func (p *Proc) Output() string { p.mu.Lock(); defer p.mu.Unlock(); return Clean(p.raw) }
+func (p *Proc) Output() string { p.mu.Lock(); defer p.mu.Unlock(); return string(p.clean) }
 
 // Raw returns the raw output so far.
 func (p *Proc) Raw() []byte { p.mu.Lock(); defer p.mu.Unlock(); return bytes.Clone(p.raw) }
@@ -202,9 +225,30 @@ func (p *Proc) Chunks() []Chunk {
 	return append([]Chunk(nil), p.chunks...)
 }
 
-// WaitOutput waits until the cleaned output contains sub.
+// WaitOutput waits until the cleaned output contains sub (searching only
+// what is new since the last look, so that megabytes of output stay cheap).
 func (p *Proc) WaitOutput(d time.Duration, sub string) bool {
-	return p.WaitFor(d, func(out string) bool { return strings.Contains(out, sub) })
+	deadline := time.Now().Add(d)
+	t := time.AfterFunc(d, func() { p.mu.Lock(); p.cond.Broadcast(); p.mu.Unlock() })
+	defer t.Stop()
+	p.mu.Lock()
+	defer p.mu.Unlock()
+	from := 0
+	for {
+		if i := bytes.Index(p.clean[from:], []byte(sub)); i >= 0 {
+			return true
+		}
+		from = max(0, len(p.clean)-len(sub))
+		if !time.Now().Before(deadline) {
+			return false
+		}
+		select {
+		case <-p.done:
+			return bytes.Contains(p.clean[from:], []byte(sub))
+		default:
+		}
+		p.cond.Wait()
+	}
 }
 
 // WaitFor waits until pred holds for the cleaned output (or the process exited).
@@ -215,7 +259,7 @@ func (p *Proc) WaitFor(d time.Duration, pred func(string) bool) bool {
 	p.mu.Lock()
 	defer p.mu.Unlock()
 	for {
-		if pred(Clean(p.raw)) {
+		if pred(string(p.clean)) {
 			return true
 		}
 		if !time.Now().Before(deadline) {
@@ -223,7 +267,7 @@ func (p *Proc) WaitFor(d time.Duration, pred func(string) bool) bool {
 		}
 		select {
 		case <-p.done:
-			return pred(Clean(p.raw))
+			return pred(string(p.clean))
 		default:
 		}
 		p.cond.Wait()
